@@ -169,6 +169,17 @@ def linearBuild (baseRxns : List (Name × List (Name × Int))) (lv : List (Name 
   let groups ← maps.mapM fun km => linRxnsOf isos baseRxns km.1 km.2
   pure { vars, rxns := groups.flatten }
 
+/-- padded length of a `label_maps` entry's reaction (0 when the entry is rejected before the map is
+    read) -/
+def padLen (isos : List (Name × List Slot)) (baseRxns : List (Name × List (Name × Int)))
+    (rxn : Name) : Nat :=
+  match baseRxns.lookup rxn with
+  | none => 0
+  | some st =>
+    match slotsOf isos (dupList (unpackLin st).1), slotsOf isos (dupList (unpackLin st).2) with
+    | .ok s, .ok p => max s.length p.length
+    | _, _ => 0
+
 /-- `LinearLabelMapper.build_model`, integer maps (this is what the driver runs) -/
 def linearBuildI (baseRxns : List (Name × List (Name × Int))) (lv : List (Name × Nat))
     (maps : List (Name × List Int)) (initLabels : List (Name × List Nat)) :
